@@ -219,6 +219,8 @@ class AbstractTifa:
         fd = FD(max_steps=400000)
         me = Obj('tifa', report=Obj('report'), analysis=Obj('analysis', issues={}), line_offset=0)
         me.attrs['__closed__'] = True
+        # helpers a refactoring extracts into Tifa / TifaCore are found through the class (fdeval.class_method)
+        me.attrs['__classdef__'] = self.vis.cls('Tifa')
         cur = {'site': 0}
 
         def issue_ctor(label):
@@ -536,63 +538,71 @@ def r2_issue_dispatch(ctx, sym, at):
 
 
 def r3_path_discipline(ctx, sym, at):
-    ctx.rule('R3', "sibling rule: every visitor of a construct whose body may run zero times or as one of several "
-                   "alternatives (If, While, For) opens a NewPath per alternative whose parent is the current path, "
-                   "visits the statements inside it and calls merge_paths(parent, alt1, alt2) once afterwards")
-    for name in ('visit_If', 'visit_While', 'visit_For'):
-        fn = at.vis_methods.get(name)
+    ctx.rule('R3', "sibling rule, behavioural: for every construct whose body may run zero times or as one of several "
+                   "alternatives (If, else-arm, While, For) the witness program `<construct>: x = 0` followed by a read "
+                   "of x, executed abstractly, reports a *possible* initialisation problem - i.e. the visitor analyses "
+                   "each alternative on its own path and merges them")
+    witnesses = {
+        'visit_If': [('if', (('a', 'x'),), ()), ('r', 'x')],
+        'visit_If:else': [('if', (), (('a', 'x'),)), ('r', 'x')],
+        'visit_While': [('while', (('a', 'x'),)), ('r', 'x')],
+        'visit_For': [('for', (('a', 'x'),)), ('r', 'x')],
+    }
+    for name, prog in witnesses.items():
+        fn = at.vis_methods.get(name.split(':')[0])
         if fn is None:
             raise AnalysisError("anchor vanished: Tifa.%s" % name)
-        paths = [n for n in body_walk(fn) if isinstance(n, ast.Assign) and isinstance(n.value, ast.Call)
-                 and call_name(n.value) == 'NewPath']
-        withs = [n for n in body_walk(fn) if isinstance(n, ast.With)]
-        merges = [c for c in calls(fn) if isinstance(c.func, ast.Attribute) and c.func.attr == 'merge_paths']
-        ok = len(paths) == 2 and len(merges) == 1
-        why = "%s opens %d path(s) and merges %d time(s); a construct with two outcomes needs two paths and one " \
-              "merge" % (name, len(paths), len(merges))
-        if ok:
-            pv = [norm(p.targets[0]) for p in paths]
-            parent = {norm(p.value.args[1]) for p in paths}
-            used = {norm(i.context_expr) for w in withs for i in w.items}
-            margs = [norm(a) for a in merges[0].args]
-            ok = set(pv) <= used and len(parent) == 1 and margs[0] in parent and \
-                set(margs[1:]) == {p + '.id' for p in pv}
-            why = "%s does not enter both paths and merge them into their common parent" % name
-            # the body statements are visited inside one of the with-blocks
-            body_visit = [w for w in withs if any('node.body' in norm(x) for x in ast.walk(w))]
-            ok = ok and bool(body_visit)
-        ctx.check(ok, 'R3', name + ':paths', at.vis, fn, why,
+        numbered = number_reads(prog)
+        try:
+            issues, raised = at.run(numbered)
+        except Inconclusive as e:
+            raise AnalysisError("C09 R3: %s outside the decidable fragment: %s" % (name, e))
+        site = numbered[-1][2]
+        got = sorted({l for l, n, s_ in issues if s_ == site and l in set(INIT_ISSUES) | {POSSIBLE}})
+        ctx.check(raised is None and got == [POSSIBLE], 'R3', name + ':paths', at.vis, fn,
+                  "after `%s` the read of x is reported as %s%s; the body ran on some executions only, so the "
+                  "assignment must count as 'maybe' (one path per alternative, merged afterwards)" % (
+                      '; '.join(render(prog[:1])), got or 'nothing',
+                      '' if raised is None else ' (raises %s)' % raised.kind),
                   {'visit_For': "for i in data:\n    x = 0\nprint(x)   # data may be empty: x unassigned, TIFA reports "
                                 "nothing because the loop body is analysed on the current path"}.get(
-                      name, "a variable assigned in only one outcome of this construct is considered definitely "
-                            "assigned afterwards"))
-    np_enter = at.path_methods.get('__enter__')
-    np_exit = at.path_methods.get('__exit__')
-    src_e, src_x = norm(np_enter), norm(np_exit)
-    ok = 'path_chain.insert(0, self.id)' in src_e and 'path_chain.pop(0)' in src_x and \
-        'path_parents[self.id] = self.origin_path' in src_e and 'name_map[self.id] = {}' in src_e
-    ctx.check(ok, 'R3', 'NewPath:push-pop', ctx.repo.module(CONTEXTS), np_enter,
-              "NewPath does not push/pop the path chain symmetrically with a fresh name map and parent link",
-              "paths leak into each other")
+                      name, "the program\n" + '\n'.join(render(prog))))
 
 
 def r4_merge_both_sides(ctx, sym, at):
-    ctx.rule('R4', "merge_paths iterates every name of the left path and every right-only name, combining each with "
-                   "the other side's state or the parents', and stores the result in the parent map")
+    ctx.rule('R4', "merge_paths covers both sides, behaviourally: witness programs in which a name is touched only on "
+                   "the left branch, only on the right branch, on both, or on a nested branch, executed abstractly, "
+                   "give exactly the verdict of the path oracle for the read after the merge (and paths do not leak "
+                   "into their siblings)")
     fn = at.core_methods['merge_paths']
-    loops = [n for n in fn.body if isinstance(n, ast.For)]
-    ok = len(loops) == 2 and 'left_path_id' in norm(loops[0].iter) and 'right_path_id' in norm(loops[1].iter)
-    if ok:
-        for lp in loops:
-            stores = [n for n in ast.walk(lp) if isinstance(n, ast.Assign) and
-                      norm(n.targets[0]).startswith('self.name_map[parent_path_id][')]
-            combos = [c for c in calls(lp) if isinstance(c.func, ast.Attribute) and c.func.attr == 'combine_states']
-            ok = ok and len(stores) == 1 and len(combos) == 1
-        guard = [n for n in loops[1].body if isinstance(n, ast.If)]
-        ok = ok and len(guard) == 1 and 'not in self.name_map[left_path_id]' in norm(guard[0].test)
-    ctx.check(ok, 'R4', 'merge_paths:both-sides', at.core, fn,
-              "merge_paths does not cover left names and right-only names with one combine/store each",
-              "if c:\n    pass\nelse:\n    x = 0\nprint(x)   # the else-only assignment is lost")
+    A_, R_ = ('a', 'x'), ('r', 'x')
+    witnesses = {
+        'left-only': [('if', (A_,), ()), R_],
+        'right-only': [('if', (), (A_,)), R_],
+        'both': [('if', (A_,), (A_,)), R_],
+        'neither': [('if', (R_,), ()), R_],
+        'nested-right': [('if', (), (('if', (A_,), (A_,)),)), R_],
+        'nested-left-partial': [('if', (('if', (A_,), ()),), (A_,)), R_],
+        'sibling-isolation': [('if', (A_,), (R_,))],
+        'before-and-one-branch': [A_, ('if', (A_,), ()), R_],
+    }
+    for name, prog in witnesses.items():
+        numbered = number_reads(prog)
+        try:
+            issues, raised = at.run(numbered)
+        except Inconclusive as e:
+            raise AnalysisError("C09 R4: merge_paths outside the decidable fragment: %s" % e)
+        verdict, _ = oracle(numbered)
+        bad = []
+        for site, v in verdict.items():
+            got = {l for l, n, s_ in issues if s_ == site and l in set(INIT_ISSUES) | {POSSIBLE}}
+            ok = (not got) if v == 'always' else (got == {POSSIBLE} if v == 'sometimes' else
+                                                  bool(got) and got <= set(INIT_ISSUES))
+            if not ok:
+                bad.append("read #%d is %s assigned on the real paths, TIFA reports %s" % (site, v, sorted(got) or 'nothing'))
+        ctx.check(raised is None and not bad, 'R4', 'merge_paths:' + name, at.core, fn,
+                  "witness %r: %s%s" % (name, '; '.join(bad), '' if raised is None else ' raises %s' % raised.kind),
+                  "the program\n" + '\n'.join(render(prog)))
 
 
 def run(ctx):
